@@ -171,10 +171,21 @@ class UnitCtx:
       self.errors.append(f"replay for {key} crashed: {type(ex).__name__}: {ex}\n{traceback.format_exc()}")
       return res
     if ok:
-      self.violations.append({"key": key, "desc": text, "replay": path, "model": q.get("model")})
+      self.violations.append({"key": key, "desc": text, "replay": self._as_path(key, path, q.get("model")), "model": q.get("model")})
     else:
       self.errors.append(f"counterexample for {key} did not reproduce on the real code ({path}); encoding or stub suspect; model {q.get('model')}")
     return res
+
+  def _as_path(self, key, path, model=None):
+    """VIOLATION lines must name a replay FILE: a replay that only returned a text (no kernel-level launch file) is written out"""
+    if isinstance(path, str) and os.path.exists(path):
+      return path
+    d = os.path.join(VERIF, "replays", self.pid)
+    os.makedirs(d, exist_ok=True)
+    p = os.path.join(d, re.sub(r"[^A-Za-z0-9_.-]+", "_", key)[:150] + ".model.json")
+    with open(p, "w") as f:
+      json.dump({"property": self.pid, "query": key, "note": str(path), "model": model, "how": f"cd /verif && ./vcheck {self.pid} --only {self.unit}  (re-derives the counterexample from the current sources)"}, f, indent=1, default=str)
+    return p
 
   def violation(self, key, desc, replay):
     """direct report (e.g. found by a native call of the public API)."""
@@ -183,7 +194,7 @@ class UnitCtx:
       if _key_match(kf["key"], full) and not kf["when"]:
         self.known_hits.append(f"KNOWN-FINDING: property={self.pid} {kf['key']} :: {kf['desc']}")
         return
-    self.violations.append({"key": full, "desc": desc, "replay": replay})
+    self.violations.append({"key": full, "desc": desc, "replay": self._as_path(full, replay)})
 
   def error(self, msg):
     self.errors.append(msg)
